@@ -387,3 +387,108 @@ Proof.
   exists m'', l1. split; [|reflexivity].
   eapply keeps_trans; [exact K2|]. eapply keeps_incl; [apply NP_names|]. eapply keeps_trans; eassumption.
 Qed.
+
+(* the registration block of handleRawMessage, once the learning and the stamping are done *)
+Definition pm_block (e : env) (peer : bytes) (peer_port : Z) (from : stransport) (c : nat) (m2 : message)
+           (l1 : learned) (x : ctx) : res ctx :=
+  let '(m3, rp) :=
+    if is_request m2 then
+      let '(m', hop) := mtry next_response_hop m2 in
+      match hop with
+      | Ok oh =>
+          let host0 := match oh with Some (h, _, _) => h | None => [] end in
+          let port := match oh with Some (_, p, _) => p | None => 0 end in
+          match (if has_prefix (s2b "[") host0
+                 then (if (fx_bracket_host (e_fx e) && negb (has_suffix (s2b "]") host0 && Nat.leb 2 (List.length host0)))%bool
+                       then Ok host0 else slice_chk host0 1 (List.length host0 - 1))
+                 else Ok host0) with
+          | Panic => (m', Panic)
+          | Err => (m', Err)
+          | Ok host =>
+              match oh with
+              | None => (m', Ok (x_p x))
+              | Some _ =>
+                  let '(m'', tid) := mtry s_client_transaction m' in
+                  match tid with
+                  | Ok (Some t) =>
+                      let '(p1, rk) := get_transport (now_s e) (s2b "tcp") host port t (x_p x) in
+                      match rk with
+                      | Ok key => (m'', Ok (set_primary key (PConn c (now_s e + 3600)) p1))
+                      | _ => (m'', Ok p1)
+                      end
+                  | _ => (m'', Ok (x_p x))
+                  end
+              end
+          end
+      | _ => (m', Ok (x_p x))
+      end
+    else (m2, Ok (x_p x)) in
+  match rp with
+  | Panic => Panic
+  | Err => Err
+  | Ok p1 => pm_tail e peer peer_port from m3 p1 l1 x
+  end.
+Lemma pm_tcp_prefix e peer pport from rs c m x : is_request m = true ->
+  exists m2 l1, keeps NP m m2 /\ top_via_of m2 = rmap (stamp_via rs peer pport) (top_via_of m) /\
+                process_message e peer pport from rs (Some c) m x = pm_block e peer pport from c m2 l1 x.
+Proof.
+  intros R. unfold process_message. rewrite R. cbn [andb].
+  set (ML := if negb (amem peer (ps_backends (x_p x))) then _ else _).
+  assert (K1 : keeps NP m (fst ML) /\ top_via_of (fst ML) = top_via_of m).
+  { subst ML. destruct (negb _); [|split; [apply keeps_refl|reflexivity]].
+    pose proof (pres_all_via_params NP NP_novia m) as K. pose proof (top_after_decode m) as T.
+    destruct (s_all_via_params m) as [m' vs]. split; assumption. }
+  destruct ML as [m1 l1]. cbn [fst] in K1. destruct K1 as [K1 T1].
+  assert (R1 : is_request m1 = true) by (rewrite (k_is_request NP m m1 K1); exact R).
+  rewrite R1. cbn [andb].
+  set (m2 := if rs then fst (s_set_received peer pport m1) else m1).
+  assert (K2 : keeps NP m m2).
+  { subst m2. destruct rs; [|exact K1]. eapply keeps_trans; [exact K1|]. apply pres_set_received. apply NP_novia. }
+  assert (T2 : top_via_of m2 = rmap (stamp_via rs peer pport) (top_via_of m)).
+  { subst m2. destruct rs; [rewrite top_after_stamp, T1; reflexivity|].
+    rewrite T1. unfold stamp_via. destruct (top_via_of m); reflexivity. }
+  clearbody m2. exists m2, l1. split; [exact K2|]. split; [exact T2|]. reflexivity.
+Qed.
+(* the registration target of a TCP request, read from the stamped message *)
+Definition reg_target2 (fx : fixes) (m2 : message) : option (bytes * Z * bytes) :=
+  match top_via_of m2 with
+  | Ok v =>
+      match reg_host fx (fst (fst (hop_of_via v))), snd (s_get_cseq m2), via_get_branch v with
+      | Ok host, Ok cs, Some br => Some (host, snd (fst (hop_of_via v)), cs_method cs ++ "-"%char :: br)
+      | _, _, _ => None
+      end
+  | _ => None
+  end.
+Definition reg_state2 (e : env) (c : nat) (m2 : message) (p : pstate) : pstate :=
+  match reg_target2 (e_fx e) m2 with
+  | Some (host, pt, t) => reg_pure e c host pt t p
+  | None => p
+  end.
+Lemma pm_block_spec e peer pport from c m2 l1 x : is_request m2 = true ->
+  (exists m3, keeps names m2 m3 /\
+     pm_block e peer pport from c m2 l1 x = pm_tail e peer pport from m3 (reg_state2 e c m2 (x_p x)) l1 x) \/
+  pm_block e peer pport from c m2 l1 x = Err \/ pm_block e peer pport from c m2 l1 x = Panic.
+Proof.
+  intros R2. unfold pm_block, reg_state2, reg_target2. rewrite R2.
+  pose proof (pres_try names _ (pres_next_response_hop names all_names_incl) m2) as K3.
+  pose proof (mtry_snd next_response_hop m2) as S3. rewrite next_response_hop_snd in S3.
+  destruct (mtry next_response_hop m2) as [m' hop]. cbn [fst snd] in K3, S3. subst hop.
+  destruct (top_via_of m2) as [v| |] eqn:TV; cbn [rmap opt_res].
+  - destruct (hop_of_via v) as [[h0 pt] tr0] eqn:HOP. cbn [fst snd]. fold (reg_host (e_fx e) h0).
+    destruct (reg_host (e_fx e) h0) as [host| |] eqn:RH; [|right; left; reflexivity|right; right; reflexivity].
+    left.
+    pose proof (pres_try names _ P_tid m') as K4.
+    pose proof (mtry_snd s_client_transaction m') as S4.
+    rewrite s_client_transaction_snd, (tid_of_keeps names m2 m' K3) in S4 by in_names.
+    unfold tid_of in S4. rewrite TV in S4.
+    destruct (mtry s_client_transaction m') as [m'' tid]. cbn [fst snd] in K4, S4. subst tid.
+    assert (K24 : keeps names m2 m'') by (eapply keeps_trans; eassumption).
+    destruct (snd (s_get_cseq m2)) as [cs| |]; cbn [rbind opt_res]; try (exists m''; split; [exact K24|reflexivity]).
+    destruct (via_get_branch v) as [br|]; cbn [of_opt rbind opt_res]; try (exists m''; split; [exact K24|reflexivity]).
+    pose proof (get_transport_tcp (now_s e) host pt (cs_method cs ++ "-"%char :: br) (x_p x)) as [GK _].
+    unfold reg_pure. fold tcp.
+    destruct (get_transport (now_s e) tcp host pt (cs_method cs ++ "-"%char :: br) (x_p x)) as [p1 rk].
+    cbn [fst snd] in GK |- *. subst rk. exists m''. split; [exact K24|reflexivity].
+  - left. exists m'. split; [exact K3|reflexivity].
+  - left. exists m'. split; [exact K3|reflexivity].
+Qed.
